@@ -15,6 +15,13 @@ def rat(j):
 
 class Solution:
     def __init__(self, text):
+        self.timelines = []
+        if " \tTL " in text:
+            text, tl = text.split(" \tTL ", 1)
+            try:
+                self.timelines = json.loads(tl)
+            except ValueError:
+                self.timelines = None
         self.j = json.loads(text)
         self.exprs = {e["name"]: e for e in self.j.get("exprs", [])}
         self.atoms = self.j.get("atoms", [])
@@ -87,4 +94,115 @@ def check_constraints(sol, meta):
         if q != want or inf != 0:
             bad.append(f"`{x} == {rgen.show(e)};` pins {x} to {want} but the solution reports {q}" + (f" + {inf}eps" if inf else ""))
             return bad
+    return bad
+
+
+# ---------------------------------------------------------------- timelines
+
+def w(v):
+    """('num', q, inf) -> comparable pair"""
+    return (v[1], v[2])
+
+
+def active_atoms(sol):
+    return [a for a in sol.atoms if a["state"] == "Active"]
+
+
+def instances_of(par):
+    """possible object ids of an object-valued parameter"""
+    if par[0] == "obj":
+        return [par[1]]
+    if par[0] == "enum":
+        return list(par[1])
+    return []
+
+
+def check_temporal(sol):
+    """C06: origin <= start <= end <= horizon, duration = end - start >= 0; origin <= at <= horizon"""
+    bad = []
+    org = w(sol.value("origin"))
+    hor = w(sol.value("horizon"))
+    zero = (0, 0)
+    if org < zero or org > hor:
+        bad.append(f"origin {org} / horizon {hor} violate 0 <= origin <= horizon")
+    for a in active_atoms(sol):
+        p = atom_pars(a)
+        if "start" in p and "end" in p:
+            s, e = w(p["start"]), w(p["end"])
+            if not (org <= s <= e <= hor):
+                bad.append(f"active atom {a['predicate']} has start {s}, end {e} outside origin {org} <= start <= end <= horizon {hor}")
+            if "duration" in p:
+                d = w(p["duration"])
+                if d != (e[0] - s[0], e[1] - s[1]) or d < zero:
+                    bad.append(f"active atom {a['predicate']} has duration {d} but end - start = {(e[0] - s[0], e[1] - s[1])}")
+        elif "at" in p:
+            t = w(p["at"])
+            if not (org <= t <= hor):
+                bad.append(f"active impulse atom {a['predicate']} has at {t} outside [{org}, {hor}]")
+    return bad
+
+
+def check_sv(sol, sv_ids):
+    """C04: on every state-variable instance no two active atoms have intersecting [start, end)"""
+    bad = []
+    per = {}
+    for a in active_atoms(sol):
+        p = atom_pars(a)
+        if "tau" not in p or "start" not in p:
+            continue
+        for inst in instances_of(p["tau"]):
+            if inst in sv_ids:
+                per.setdefault(inst, []).append((w(p["start"]), w(p["end"]), a))
+    for inst, lst in per.items():
+        for i in range(len(lst)):
+            for j in range(i + 1, len(lst)):
+                s1, e1, a1 = lst[i]
+                s2, e2, a2 = lst[j]
+                if max(s1, s2) < min(e1, e2):
+                    bad.append(f"state variable {inst}: atoms {a1['predicate']} [{s1},{e1}) and {a2['predicate']} [{s2},{e2}) overlap")
+    # the extracted timeline shows at most one atom per segment
+    if sol.timelines:
+        for tl in sol.timelines:
+            if tl.get("type") == "StateVariable":
+                for seg in tl.get("values", []):
+                    if len(seg.get("atoms", [])) > 1:
+                        bad.append(f"timeline of state variable {tl['id']} shows {len(seg['atoms'])} atoms in one segment")
+    return bad
+
+
+def check_rr(sol, capacities):
+    """C05: at every instant the amounts of the active Use atoms covering it sum to at most the capacity"""
+    bad = []
+    per = {}
+    for a in active_atoms(sol):
+        p = atom_pars(a)
+        if "tau" not in p or "amount" not in p:
+            continue
+        for inst in instances_of(p["tau"]):
+            if inst in capacities:
+                per.setdefault(inst, []).append((w(p["start"]), w(p["end"]), w(p["amount"]), a))
+    for inst, lst in per.items():
+        cap = capacities[inst]
+        for (t, _, _, _) in lst:
+            use = (0, 0)
+            for (s, e, am, a) in lst:
+                if s <= t < e:
+                    use = (use[0] + am[0], use[1] + am[1])
+            if use > cap:
+                bad.append(f"reusable resource {inst}: usage {use} at time {t} exceeds the capacity {cap}")
+                break
+        for (_, _, am, a) in lst:
+            if am < (0, 0):
+                bad.append(f"reusable resource {inst}: negative amount {am}")
+    if sol.timelines:
+        for tl in sol.timelines:
+            if tl.get("type") == "ReusableResource" and tl["id"] in per:
+                for seg in tl.get("values", []):
+                    f, t = rat(seg["from"]), rat(seg["to"])
+                    exp = (0, 0)
+                    for (s, e, am, a) in per[tl["id"]]:
+                        if s <= f and t <= e and s < e:
+                            exp = (exp[0] + am[0], exp[1] + am[1])
+                    if "usage" in seg and rat(seg["usage"]) != exp:
+                        bad.append(f"timeline of resource {tl['id']}: segment [{f},{t}) reports usage {rat(seg['usage'])} but the covering atoms sum to {exp}")
     return bad
